@@ -82,6 +82,16 @@ pub const K_REPEAT: &str = "c04/diverged/event-hash-repeats-within-a-log";
 pub const K_NEWFOLDER: &str = "c04/sync-ok-but-differs/resolved-by-later-sync";
 pub const K_REKEY: &str = "c04/folder-undecryptable/concurrent-rewrite-and-password-change";
 
+pub const K_DELREWRITE: &str = "c04/folder-set-differs/concurrent-delete-and-rewrite";
+
+/// One device deleted a folder offline while another device rewrote a folder (password change
+/// or compaction) offline.
+pub fn concurrent_delete_and_rewrite(c: &ConvCase) -> bool {
+    let del = |o: &Vec<Edit>| o.iter().any(|e| matches!(e, Edit::DeleteFolder { .. }));
+    let rewrite = |o: &Vec<Edit>| o.iter().any(|e| matches!(e, Edit::ChangeFolderPassword { .. } | Edit::CompactFolder { .. }));
+    (0..c.offline.len()).any(|i| del(&c.offline[i]) && (0..c.offline.len()).any(|j| j != i && rewrite(&c.offline[j])))
+}
+
 /// One device changed a folder password offline while another device rewrote a folder log
 /// (compaction or another password change) offline.
 pub fn concurrent_rekey(c: &ConvCase) -> bool {
@@ -141,6 +151,15 @@ pub async fn run_conv_case(c: &ConvCase, tol: Tolerate) -> (ConvOutcome, CheckRe
     if let Err(f) = &r {
         if f.signature == "sync/served-folder-undecryptable" && concurrent_rekey(c) {
             r = Err(Failure::new(K_REKEY, f.message.clone()));
+        }
+    }
+    // a folder deleted on one device while another device rewrites it (password change or
+    // compaction travel as account events that carry the whole folder and re-create it): the
+    // replicas apply delete and re-creation in different orders
+    if let Err(f) = &r {
+        let diverged = f.signature.starts_with("c04/fixpoint-success-but-diverged") || f.signature.starts_with("c04/stuck-with-error") || f.signature.starts_with("c04/no-fixpoint");
+        if diverged && concurrent_delete_and_rewrite(c) {
+            r = Err(Failure::new(K_DELREWRITE, format!("[{}] {}", f.signature, f.message)));
         }
     }
     if r.is_ok() {
